@@ -260,7 +260,7 @@ class OctetStringEncoder(AbstractItemEncoder):
 
             asn1Spec = value.clone(tagSet=tagSet)
 
-        elif not isOctetsType(value):
+        else:
             baseTag = asn1Spec.tagSet.baseTag
 
             # strip off explicit tags
